@@ -18,6 +18,16 @@ Readings (where the property text leaves room):
   objects that start at the final time point (a final barline) belong to no segment `[s, e)` and are not
   copied, except the fermatas the code takes from a segment's end; Page/System objects are dropped.
 * ending numbers are one decimal digit (1..9).
+* "the maximal unfolding plays each repeated section the notated number of times" in a part with a da capo / dal segno
+  (round 3, clause `blocks-navigation`): everything in full up to the jump instruction, the jump is obeyed once, and from
+  its destination to the Fine / To Coda (and from the Coda to the end) again in full when `ignore_leaps=True` ("repetitions
+  after a leap are unfolded fully", docstring of unfold_part_maximal), once with the last endings when `ignore_leaps=False`;
+  the minimal unfolding goes straight through.  Checked only where the notation leaves no doubt: disjoint simple repeats and
+  bracket groups, one standard navigation form, its marks outside the repeated sections; NOT when the jump instruction ends
+  a repeated section and leaps are ignored (twice or once on the way through after the jump?), nor where the code's
+  recognition of a leap by segment types is known to be fooled (see PARTIAL).
+* segment ids: the property does not speak about them; that they are `chr(65 + i)` is compared with the model (`ids`,
+  `segstr`), because three places of the code order segments by the string order of their ids (Props/C09Many).
 """
 import copy as _copy
 import json
@@ -71,22 +81,41 @@ PARTIAL = [
     "marks (several jumps, marks inside repeats) are compared only; `'END' <= chr(65+i)` makes END count as a jump to the past for segments "
     "F and later (mirrored by Dest.lePast); the first segment is a leap destination only when the part starts at time 0 (`ss == 0`)",
     "Fermata.ref / Note.fermata / Beam references are not in the property's list of references and are not remapped by the code",
+    "repeats combined with a navigation form (clause blocks-navigation) are judged by the oracle only for disjoint blocks with the marks "
+    "outside them; excluded (compared with the model only): (a) ignore_leaps=True with the D.C./D.S. at the end of a repeated section "
+    "- the code plays that section once on the way through after the jump, the notation does not say; (b) a D.C./D.S. that ends the "
+    "very segment it jumps to; (c) a D.C./D.S. at the end of a repeated section / bracket group that starts at the jump's own "
+    "destination (start of the piece, segno): Segment.to merges the repeat and the navigation destination, and the leap test "
+    "(types of the two segments) takes the notated repeat for the jump - same root cause as the repaired fixes/C09-8, not repaired",
+    "many segments: proved for every number of segments (ids chr(65+i), i unbounded; Python's chr stops at 0x10FFFF, never reached); "
+    "measured on the real code: 27, 60, 200 and 480 consecutive repeated sections and 210 bracket groups unfold correctly "
+    "(0.01-0.8 s, no quadratic or exponential cost in the maximal/minimal enumeration); a maximal path of about 990 visits or more "
+    "(500 repeated sections) ends in RecursionError - unfold_paths recurses once per visit - and a destination used more than 100 "
+    "times from one segment (8 nested repeats) in IndexError (`destinations * 100`); both outside the generated domain",
 ]
 RULE = ("parts from gen_score.random_part_desc (3-10 bars, ties over barlines, signature/clef/division changes) with a generated "
         "repeat structure at bar lines: 0-4 laminar repeats, volta groups with 1-3 brackets and single or comma-separated numbers, "
         "one of 9 navigation forms (da capo, fine, dal segno, segno, coda, to-coda, malformed), slurs/tuplets inside and across "
         "boundaries, fermatas, pages/systems; each with 1-3 (policy, update_ids, ignore_leaps) combinations; shape cases of the theorem "
         "families (r disjoint repeats, one repeat with k brackets, the 9 standard navigation forms D.C./D.S. (al Fine / al Coda / before "
-        "the end)); plus the six unfold fixtures of tests/data/musicxml.  distinct = distinct (segment table, policy flags); "
-        "non-trivial = at least one repeat, ending or mark")
+        "the end)); BLOCK parts (round 3): a sequence of plain music, simple repeats and repeats with 1-3 numbered brackets, optionally "
+        "one standard navigation form with its marks at block edges, optionally an outer repeat around several blocks - 2-14 segments, "
+        "and 8 (quick) / 120 (thorough) parts with MANY segments: 27-60, every sixth 61-150 (ids beyond 'Z', longest path kept below "
+        "800 visits); 15-25 % of the parts are built with read-only views interleaved (gen_score `warm`) and 12-15 % with an edit "
+        "history (a mark removed, the part unfolded, the mark put back: `hist`); plus the six unfold fixtures of tests/data/musicxml "
+        "and corpus/C09.  distinct = distinct (segment table, policy flags); non-trivial = at least one repeat, ending or mark")
 LEVEL_TEXT = ("Lean theorems about the executable model of segment construction, path enumeration and segment copying: for every "
               "table - walks, length sum, copies per visit, nothing left, closed references, id suffix = visit number; at the layout "
               "level for symbolic boundary times - r disjoint repeats give the chain table (2^r variants, maximal/minimal), one repeat "
               "with k brackets carrying any assignment of 1..N gives the volta table (pass n takes the bracket of number n), D.C. al "
-              "Fine / D.C. al Coda / D.S. al Coda; termination of the enumeration for every part whose only structure is repeats. "
+              "Fine / D.C. al Coda / D.S. al Coda; termination of the enumeration for every part whose only structure is repeats; "
+              "for ANY number of segments the string operations of the code on segment ids chr(65+i) (sorts, comparisons, substring "
+              "classification, cuts) are the numeric operations of the model (segment_table_is_string_algorithm), which ids counted "
+              "A..Z, AA, .. would break. "
               "Tied to partitura by running the model and the real unfold functions on the same generated parts and comparing segment "
-              "tables, family membership, path lists and every copied object; an independent oracle re-checks the property clauses "
-              "(incl. the maximal path of the standard repeat, volta and navigation forms) on the implementation's output.")
+              "tables (as numbers and as id strings), ids, family membership, path lists and every copied object; an independent oracle "
+              "re-checks the property clauses (incl. the playing order, computed from the notation alone in units of time, of parts "
+              "made of disjoint repeats / bracket groups with a standard navigation form, up to 150 segments) on the implementation's output.")
 
 REPO = os.environ.get("VERIF_REPO", "/repo")
 FIXTURES = ["test_unfold_timeline.xml", "test_unfold_complex.xml", "test_unfold_volta_numbers.xml",
